@@ -11,6 +11,7 @@ import (
 	"math/rand"
 	"os"
 	"reflect"
+	"strings"
 	"sync"
 
 	kanzi "github.com/flanglet/kanzi-go/v2"
@@ -132,6 +133,55 @@ func newSingle(name string, ctx *map[string]any) (kanzi.ByteTransform, error) {
 	return nil, fmt.Errorf("unknown transform %s", name)
 }
 
+// plainNames are the transforms built by their context-free public constructors (with every legal parameter)
+var plainNames = []string{"plain:BWT", "plain:BWTS", "plain:LZ", "plain:LZX", "plain:LZP", "plain:RLT", "plain:ZRLT", "plain:SBRT:1", "plain:SBRT:2",
+	"plain:SBRT:3", "plain:EXE", "plain:TEXT", "plain:ROLZ:2", "plain:ROLZ:3", "plain:ROLZ:4", "plain:ROLZ:5", "plain:ROLZ:6", "plain:ROLZ:7", "plain:ROLZ:8",
+	"plain:ROLZF:0", "plain:ROLZF:1", "plain:SRT", "plain:MM", "plain:UTF", "plain:PACK", "plain:NONE"}
+
+func newPlain(name string) (kanzi.ByteTransform, error) {
+	var k int
+	switch {
+	case name == "plain:NONE":
+		return transform.NewNullTransform()
+	case name == "plain:BWT":
+		return transform.NewBWTBlockCodec()
+	case name == "plain:BWTS":
+		return transform.NewBWTS()
+	case name == "plain:LZ":
+		return transform.NewLZCodec()
+	case name == "plain:LZX":
+		return transform.NewLZXCodec()
+	case name == "plain:LZP":
+		return transform.NewLZPCodec()
+	case name == "plain:RLT":
+		return transform.NewRLT()
+	case name == "plain:ZRLT":
+		return transform.NewZRLT()
+	case name == "plain:EXE":
+		return transform.NewEXECodec()
+	case name == "plain:TEXT":
+		return transform.NewTextCodec()
+	case name == "plain:SRT":
+		return transform.NewSRT()
+	case name == "plain:MM":
+		return transform.NewFSDCodec()
+	case name == "plain:UTF":
+		return transform.NewUTFCodec()
+	case name == "plain:PACK":
+		return transform.NewAliasCodec()
+	}
+	if n, _ := fmt.Sscanf(name, "plain:SBRT:%d", &k); n == 1 {
+		return transform.NewSBRT(k)
+	}
+	if n, _ := fmt.Sscanf(name, "plain:ROLZ:%d", &k); n == 1 {
+		return transform.NewROLZCodec(uint(k))
+	}
+	if n, _ := fmt.Sscanf(name, "plain:ROLZF:%d", &k); n == 1 {
+		return transform.NewROLZCodecWithFlag(k == 1)
+	}
+	return nil, fmt.Errorf("unknown transform %s", name)
+}
+
 func isChain(t string) bool {
 	for _, c := range t {
 		if c == '+' {
@@ -169,6 +219,8 @@ func runXform(c xformCase) tr.Ev {
 			if ty, err = transform.GetType(c.T); err == nil {
 				t, err = transform.New(&ctx, ty)
 			}
+		} else if strings.HasPrefix(c.T, "plain:") {
+			t, err = newPlain(c.T)
 		} else {
 			t, err = newSingle(c.T, &ctx)
 		}
@@ -337,6 +389,18 @@ func cmdXform(args []string) int {
 				if len(hints) > 0 && k == 0 {
 					add(t, shape, size, hints[(ti+si)%len(hints)], ent)
 				}
+			}
+		}
+	}
+	// the context-free public constructors with every legal parameter
+	for ti, t := range plainNames {
+		for si, shape := range gen.Shapes {
+			if !*thorough && (ti+si)%3 != 0 {
+				continue
+			}
+			add(t, shape, sizes[(ti*5+si*3)%12], -1, "NONE")
+			if *thorough {
+				add(t, shape, sizes[(ti*3+si*7+5)%len(sizes)]%(1<<20+17), -1, "NONE")
 			}
 		}
 	}
